@@ -57,6 +57,7 @@ class Sim:
         self.keep_log = True
         self.spin_timeout = 30.0       # real seconds a managed thread may run without reaching a hand-over point
         self.spinning = None
+        self.line_hook = None          # line_hook(task, code object, line number) before every traced line
         self.hook = None               # hook(kind, object): called by the substituted Event at set / clear / return of wait
 
     # ------------------------------------------------------------------ thread side
@@ -103,6 +104,8 @@ class Sim:
         if self.trace_funcs is not None and code.co_name not in self.trace_funcs:
             return None
         if event == "line":
+            if self.line_hook is not None:
+                self.line_hook(self.cur, code, frame.f_lineno)
             self._yield(("line", code.co_filename.rsplit("/", 1)[-1], frame.f_lineno))
         return self._tr
 
